@@ -10,7 +10,7 @@ wt=$(mktemp -d /tmp/wt-run-XXXXXX); rmdir $wt
 git -C /repo worktree add --detach $wt HEAD -q || exit 3
 ( cd $wt && git apply $p ) || { git -C /repo worktree remove --force $wt; exit 3; }
 export GOFLAGS=-mod=mod GOPROXY=off GOSUMDB=off GOTOOLCHAIN=local
-VERIF_REPO=$wt GOSYM_NO_EVIDENCE=1 /verif/bin/gosym check $pid "$@" 2>&1 | grep -v "^WARNING" | grep -v "^gosym: C" | sed "s#$wt#/repo#g" | tail -6 | cut -c1-600
+VERIF_REPO=$wt GOSYM_NO_EVIDENCE=1 GOSYM_WORK_SUFFIX=-seed$$ /verif/bin/gosym check $pid "$@" 2>&1 | grep -v "^WARNING" | grep -v "^gosym: C" | sed "s#$wt#/repo#g" | tail -6 | cut -c1-600
 rc=${PIPESTATUS[0]}
 git -C /repo worktree remove --force $wt
 echo "exit=$rc"
